@@ -233,36 +233,35 @@ impl Cw20 {
             .tx(|deps, env| cw20_base::contract::execute(deps, env, info(sender), msg))
     }
 
+    /// all reads go through the contract's `query` entry point (JSON in, JSON out), like a client
+    pub fn q<R: serde::de::DeserializeOwned>(&self, msg: cw20_base::msg::QueryMsg) -> Option<R> {
+        self.w
+            .q(|d, e| cw20_base::contract::query(d, e, msg).and_then(|b| cosmwasm_std::from_json::<R>(&b)))
+            .ok()
+    }
     pub fn balance(&self, a: &str) -> u128 {
-        cw20_base::contract::query_balance(self.w.deps(), a.to_string())
-            .map(|b| b.balance.u128())
-            .unwrap_or(0)
+        self.q::<cw20::BalanceResponse>(cw20_base::msg::QueryMsg::Balance { address: a.to_string() }).map(|b| b.balance.u128()).unwrap_or(0)
     }
     pub fn supply(&self) -> u128 {
-        cw20_base::contract::query_token_info(self.w.deps())
-            .map(|t| t.total_supply.u128())
-            .unwrap_or(0)
+        self.q::<cw20::TokenInfoResponse>(cw20_base::msg::QueryMsg::TokenInfo {}).map(|t| t.total_supply.u128()).unwrap_or(0)
     }
     pub fn minter(&self) -> Option<(String, Option<u128>)> {
-        cw20_base::contract::query_minter(self.w.deps())
-            .ok()
-            .flatten()
-            .map(|m| (m.minter, m.cap.map(|c| c.u128())))
+        self.q::<Option<cw20::MinterResponse>>(cw20_base::msg::QueryMsg::Minter {}).flatten().map(|m| (m.minter, m.cap.map(|c| c.u128())))
     }
     pub fn allowance(&self, o: &str, s: &str) -> (u128, Exp) {
-        match cw20_base::allowances::query_allowance(self.w.deps(), o.into(), s.into()) {
-            Ok(a) => (a.allowance.u128(), Exp::from(&a.expires)),
-            Err(_) => (0, Exp::Never),
+        match self.q::<cw20::AllowanceResponse>(cw20_base::msg::QueryMsg::Allowance { owner: o.into(), spender: s.into() }) {
+            Some(a) => (a.allowance.u128(), Exp::from(&a.expires)),
+            None => (0, Exp::Never),
         }
     }
     pub fn all_accounts(&self) -> Vec<String> {
         let mut out: Vec<String> = vec![];
         let mut cursor: Option<String> = None;
         loop {
-            let page =
-                cw20_base::enumerable::query_all_accounts(self.w.deps(), cursor.clone(), Some(30))
-                    .map(|r| r.accounts)
-                    .unwrap_or_default();
+            let page = self
+                .q::<cw20::AllAccountsResponse>(cw20_base::msg::QueryMsg::AllAccounts { start_after: cursor.clone(), limit: Some(30) })
+                .map(|r| r.accounts)
+                .unwrap_or_default();
             if page.is_empty() {
                 break;
             }
@@ -278,14 +277,10 @@ impl Cw20 {
         let mut out = vec![];
         let mut cursor: Option<String> = None;
         loop {
-            let page = cw20_base::enumerable::query_owner_allowances(
-                self.w.deps(),
-                owner.into(),
-                cursor.clone(),
-                Some(30),
-            )
-            .map(|r| r.allowances)
-            .unwrap_or_default();
+            let page = self
+                .q::<cw20::AllAllowancesResponse>(cw20_base::msg::QueryMsg::AllAllowances { owner: owner.into(), start_after: cursor.clone(), limit: Some(30) })
+                .map(|r| r.allowances)
+                .unwrap_or_default();
             if page.is_empty() {
                 break;
             }
@@ -303,14 +298,10 @@ impl Cw20 {
         let mut out = vec![];
         let mut cursor: Option<String> = None;
         loop {
-            let page = cw20_base::enumerable::query_spender_allowances(
-                self.w.deps(),
-                spender.into(),
-                cursor.clone(),
-                Some(30),
-            )
-            .map(|r| r.allowances)
-            .unwrap_or_default();
+            let page = self
+                .q::<cw20::AllSpenderAllowancesResponse>(cw20_base::msg::QueryMsg::AllSpenderAllowances { spender: spender.into(), start_after: cursor.clone(), limit: Some(30) })
+                .map(|r| r.allowances)
+                .unwrap_or_default();
             if page.is_empty() {
                 break;
             }
